@@ -133,7 +133,7 @@ func (eci *ECInstance) validateDecision(decision *gpbft.Justification) error {
 	signers := make([]int, 0)
 	powerTable := eci.PowerTable
 	if err := decision.Signers.ForEach(func(bit uint64) error {
-		if int(bit) >= len(powerTable.Entries) {
+		if bit >= uint64(len(powerTable.Entries)) {
 			return fmt.Errorf("invalid signer index: %d", bit)
 		}
 		power := powerTable.ScaledPower[bit]
